@@ -278,3 +278,31 @@ Proof.
   - replace (m + k - 1 - m + 1) with k by lia.
     rewrite Z.add_comm, Z.div_add by lia. rewrite Z.div_small by lia. apply Z.mod_small; lia.
 Qed.
+
+(* ((_ sign_extend k) x) for x of width n, bit by bit *)
+Lemma smt_sext_bits n k x i : 0 < n -> 0 <= k -> 0 <= x < 2 ^ n -> 0 <= i < n + k ->
+  Z.testbit (bvsext n k x) i = if i <? n then Z.testbit x i else Z.testbit x (n - 1).
+Proof.
+  intros Hn Hk Hx Hi. unfold bvsext, msb.
+  assert (Hpn : 0 < 2 ^ n) by (apply Z.pow_pos_nonneg; lia).
+  assert (Hh : 0 < 2 ^ (n - 1)) by (apply Z.pow_pos_nonneg; lia).
+  assert (E2 : 2 ^ n = 2 * 2 ^ (n - 1)).
+  { replace n with (Z.succ (n - 1)) at 1 by lia. apply Z.pow_succ_r; lia. }
+  destruct (2 ^ (n - 1) <=? x) eqn:E.
+  - assert (Hs : Z.testbit x (n - 1) = true).
+    { rewrite Z.testbit_eqb by lia. replace (x / 2 ^ (n - 1)) with 1; [reflexivity|].
+      apply Z.div_unique with (x - 2 ^ (n - 1)); lia. }
+    assert (EW : 2 ^ (n + k) - 2 ^ n = Z.ones k * 2 ^ n).
+    { rewrite Z.ones_equiv. rewrite <- Z.sub_1_r. rewrite Z.mul_sub_distr_r.
+      rewrite <- Z.pow_add_r by lia. replace (k + n) with (n + k) by lia. lia. }
+    rewrite EW. destruct (i <? n) eqn:Ei.
+    + rewrite <- (Z.mod_pow2_bits_low (x + Z.ones k * 2 ^ n) n i) by lia.
+      rewrite Z.mod_add by lia. apply Z.mod_pow2_bits_low; lia.
+    + rewrite Hs. replace i with ((i - n) + n) by lia.
+      rewrite <- Z.div_pow2_bits by lia.
+      rewrite Z.div_add by lia. rewrite Z.div_small by lia. rewrite Z.add_0_l.
+      apply Z.ones_spec_low; lia.
+  - destruct (i <? n) eqn:Ei; [reflexivity|].
+    rewrite <- (Z.mod_small x (2 ^ n)) at 1 by lia. rewrite Z.mod_pow2_bits_high by lia.
+    rewrite <- (Z.mod_small x (2 ^ (n - 1))) by lia. rewrite Z.mod_pow2_bits_high by lia. reflexivity.
+Qed.
